@@ -18,7 +18,7 @@ RULE = (
     "non-trivial: >=2 chunks in some dependency and >=1 row; distinct by input."
 )
 ASSUMPTIONS = ["small scope: <=3 rows per kind, grid 0..4; all dependencies start at the same time", "4 dependencies (upper end of the quantifier) are not enumerated"]
-BOUNDS = {"quick": "1 dep: rows<=3; 2 same: rows<=2; 2 kinds: rows<=2 each; 2+1: rows<=1-2, <=2 cuts", "thorough": "rows<=3 for one/two deps, 2+1 and 3 kinds with rows<=2"}
+BOUNDS = {"quick": "1 dep: rows<=3; 2 same: rows<=2; 2 kinds: rows<=2 each; 2+1: rows<=1-2, <=2 cuts", "thorough": "rows<=3 for one/two deps on grid 5; 2 kinds and 2+1 on grid 4 with rows<=2; 3 kinds on grid 3 with rows<=2,2,1 and <=2 cuts each"}
 
 G = 4
 
@@ -208,14 +208,16 @@ def enum_cases(sname, tier):
                         for b3 in c2:
                             yield {"ka": iv1, "kb": iv2}, {"d1": b1, "d2": b2, "e1": b3}
     elif sname == "kinds3":
-        Gk = 3 if q else 4
+        # thorough: grid 3, <=2 rows in the first two kinds, <=1 in the third, <=2 cuts each (603 288 inputs); the full
+        # grid-4 / <=2-rows product has > 3e7 inputs and is out of reach
+        Gk = 3
         rs = row_sets(1 if q else 2, G=Gk)
         for iv1 in rs:
             c1 = chunkings_for(iv1, max_cuts=1 if q else 2, zero=False, G=Gk)
             for iv2 in rs:
                 c2 = chunkings_for(iv2, max_cuts=1 if q else 2, zero=False, G=Gk)
-                for iv3 in rs:
-                    c3 = chunkings_for(iv3, max_cuts=1, zero=False, G=Gk)
+                for iv3 in row_sets(1, G=Gk):
+                    c3 = chunkings_for(iv3, max_cuts=1 if q else 2, zero=False, G=Gk)
                     for b1 in c1:
                         for b2 in c2:
                             for b3 in c3:
